@@ -383,3 +383,38 @@ Proof.
   destruct early_exit_nonvacuous as (_ & s & Hrun & Hq & Hf & _ & Hout).
   exists s. split; [now apply frun_sched_reach in Hrun|]. split; [exact Hf|]. split; [now apply fquiescentb_ok|exact Hout].
 Qed.
+
+(* ======================= every producer shape: no deadlock, termination (coq/C04/KeepGen.v) ======================= *)
+From Miller Require Import C04.KeepGen.
+
+(* For EVERY producer shape [keep] (1: line readers; 0: seqgen, `seqgen then head`; any other value): the only step that
+   is not a step of the keep = 1 model -- the producer's poll that finds the done flag -- strictly decreases the
+   skeleton's termination measure of the projection and preserves its progress invariant.  Hence: *)
+Theorem C04_data_model_no_infinite_runs_any_producer :
+  forall (rec str st : Type) (keep : nat), well_founded (fun (s' s : @DataFlags.fstate rec str st) => DataFlags.fstep keep s s').
+Proof. exact (@data_no_infinite_runs_keep). Qed.
+Print Assumptions C04_data_model_no_infinite_runs_any_producer.
+
+Theorem C04_data_model_no_deadlock_any_producer :
+  forall (rec str st : Type) (keep : nat) (vs : list (@verb rec str st * st)) (bs : list (list (@item rec str))) s,
+    vs <> [] -> DataFlags.freach keep (DataFlags.finit vs bs) s -> ffinal s = false -> exists s', DataFlags.fstep keep s s'.
+Proof. exact (@data_no_deadlock_keep). Qed.
+Print Assumptions C04_data_model_no_deadlock_any_producer.
+
+Theorem C04_data_model_every_run_terminates_any_producer :
+  forall (rec str st : Type) (keep : nat) (vs : list (@verb rec str st * st)) (bs : list (list (@item rec str))), vs <> [] ->
+  forall s, DataFlags.freach keep (DataFlags.finit vs bs) s -> exists s', DataFlags.freach keep s s' /\ ffinal s' = true.
+Proof. exact (@data_every_run_terminates_keep). Qed.
+Print Assumptions C04_data_model_every_run_terminates_any_producer.
+
+(* non-vacuity for the seqgen shape: cat then head -n 2 with keep = 0 has an exited run in which the producer was cut
+   short, and it wrote the first two records *)
+Definition seqgen_head : list vdesc := [DCat; DHead 2].
+Definition schedS : list nat := Eval vm_compute in sched_lazy 0 400 (DataFlags.finit (chain_of seqgen_head) four).
+Example C04_seqgen_shape_nonvacuous :
+  exists s, frun_sched 0 schedS (DataFlags.finit (chain_of seqgen_head) four) = Some s /\ ffinal s = true
+            /\ flat (fout s) = [inl 1; inl 2].
+Proof.
+  destruct (frun_sched 0 schedS (DataFlags.finit (chain_of seqgen_head) four)) as [s|] eqn:E; [|vm_compute in E; discriminate].
+  exists s. split; [reflexivity|]. vm_compute in E. inversion E; subst s. vm_compute. split; reflexivity.
+Qed.
